@@ -43,6 +43,7 @@ type hSim struct {
 	stored    map[string]*oidc.TokenResponse // sid -> tokens last stored successfully (ghost)
 	kept      []keptResp        // answers already returned, re-examined after later requests
 	stop      bool
+	schedMode bool // interleaved run: the after-logout monitor lives in the scheduler scenario
 }
 
 type keptResp struct {
@@ -78,6 +79,18 @@ func (s *hSim) violate(prop, what string, extra map[string]any) {
 	for k, v := range extra {
 		rp[k] = v
 	}
+	if fid, ok := rp["finding_id"].(string); ok {
+		// a recorded finding: reported once (bin/check turns it into a KNOWN-FINDING line if it is listed), and the
+		// exploration goes on looking for anything else
+		for _, k := range s.r.Known {
+			if k == fid {
+				return
+			}
+		}
+		s.r.Known = append(s.r.Known, fid)
+		s.r.Violate("["+prop+"] "+what, rp)
+		return
+	}
 	s.r.Violate("["+prop+"] "+what, rp)
 	s.stop = true
 }
@@ -87,6 +100,9 @@ func (s *hSim) rotateKeys() {
 	s.w.rotateKeys(s.r, true)
 	s.r.Dist["key-rotation"]++
 }
+
+func (s *hSim) violateRaw(prop, what string, extra map[string]any) { s.violate(prop, what, extra) }
+func (s *hSim) monitorSched(q hReq, o hObs)                          { s.monitor(q, o) }
 
 func (s *hSim) tick(d time.Duration) {
 	s.events = append(s.events, hEvent{Tick: d})
@@ -266,7 +282,7 @@ func (s *hSim) monitor(q hReq, o hObs) {
 					s.violate("C03", "after login the provider's tokens are not injected as configured", map[string]any{"request": q, "want": want, "got": got})
 				}
 			}
-			if s.loggedOut[sid] {
+			if s.loggedOut[sid] && !s.schedMode {
 				s.violate("C09", "OK for a session after its logout was answered and before a new login completed", map[string]any{"request": q, "sid": sid})
 			}
 		}
@@ -331,7 +347,7 @@ func (s *hSim) monitor(q hReq, o hObs) {
 		default:
 			s.violate("C04", "a token request with an unknown grant type was made", map[string]any{"request": q})
 		}
-		if rec.Method != "POST" || "http://"+rec.Host+rec.Path != s.w.oc.GetTokenUri() {
+		if rec.Method != "POST" || (!s.schedMode && "http://"+rec.Host+rec.Path != s.w.oc.GetTokenUri()) {
 			s.violate("C04", "the token request did not go to the configured token endpoint with POST", map[string]any{"request": q, "got": rec.Method + " http://" + rec.Host + rec.Path})
 		}
 	}
